@@ -24,7 +24,7 @@ COMMON_ASSUMPTIONS = [
 ]
 
 
-def step_cases(cfgs, universe, ops, props_, tier, seed, dlens=None, lens=None, release=False, perm=False, max_shapes=None):
+def step_cases(cfgs, universe, ops, props_, tier, seed, dlens=None, lens=None, release=False, perm=False, max_shapes=None, tag=None):
     u = UNIVERSES[universe]()
     shs = shapes(u)
     if max_shapes and len(shs) > max_shapes:
@@ -35,25 +35,33 @@ def step_cases(cfgs, universe, ops, props_, tier, seed, dlens=None, lens=None, r
     for cfg in cfgs:
         for sh in shs:
             cases.append({'cfg': cfg, 'universe': universe, 'shape': sh, 'ops': ops, 'props': props_,
-                          'dlens': dlens, 'lens': lens, 'release': release, 'perm': perm})
+                          'dlens': dlens, 'lens': lens, 'release': release, 'perm': perm, 'tag': tag or 'C01'})
     return cases
 
 
-def run_onestep(pid, tier, seed, cfgs_quick, cfgs_thorough, ops, extra_props=(), rule=''):
+def run_onestep(pid, tier, seed, cfgs_quick, cfgs_thorough, ops, extra_props=(), rule='', perm=False, overlay_plan=None):
     ck = Check(pid, tier, seed)
     prog = load_program()
     ck.selftest = quick_selftest(prog, seed, 12 if tier == 'quick' else 150)
     props_ = [pid] + list(extra_props)
     if tier == 'quick':
-        cases = step_cases(cfgs_quick, 'U5', ops, props_, tier, seed, dlens=[1])
+        cases = step_cases(cfgs_quick, 'U5', ops, props_, tier, seed, dlens=[1], perm=perm)
         ck.bounds = {'universe': 'U5 = {/a,/ab,/a.b,/a/b,/a/b/c} + probes /x,/x/y + root', 'file_bytes': '0..2 symbolic',
                      'written_bytes': '1 symbolic', 'steps': 1, 'configs': cfgs_quick}
     else:
-        cases = step_cases(cfgs_thorough, 'U5', ops, props_, tier, seed, dlens=[0, 1, 2])
-        cases += step_cases(cfgs_thorough[:2], 'U8', ops, props_, tier, seed, dlens=[1], max_shapes=250)
+        cases = step_cases(cfgs_thorough, 'U5', ops, props_, tier, seed, dlens=[0, 1, 2], perm=perm)
+        cases += step_cases(cfgs_thorough[:2], 'U8', ops, props_, tier, seed, dlens=[1], max_shapes=250, perm=perm)
         ck.bounds = {'universe': 'U5 (all 63 shapes) and U8 (250 seeded shapes)', 'file_bytes': '0..2 symbolic',
                      'written_bytes': '0..2 symbolic', 'steps': 1, 'configs': cfgs_thorough}
     ck.add(run_cases(prog, onestep.run_step_case, cases), 'one inductive step: every op x every path from every well-formed tree')
+    scases = step_cases(['mem'] if tier == 'quick' else cfgs_thorough[:2], 'USYM', ops, props_, tier, seed, dlens=[1], perm=perm)
+    ck.add(run_cases(prog, onestep.run_step_case, scases), 'same, symbolic-name mode: names are solver variables (lengths 1,3,2 over {a,b,.,_,U+00E9}), siblings distinct')
+    if overlay_plan:
+        from . import overlay
+        ocases = []
+        for (universe, nlayers, kw) in overlay_plan:
+            ocases += ovl_cases(universe, nlayers, props_, seed, **kw)
+        ck.add(run_cases(prog, overlay.run_history_case, ocases), 'overlay bounded histories (same monitors)')
     ck.assumptions = COMMON_ASSUMPTIONS
     ck.rule = rule or 'a case = (configuration, well-formed tree shape, operation, target path); distinct by construction; non-trivial = the tree shape (states) is non-empty or the operation touches the root'
     return ck.finish(prog)
@@ -195,13 +203,11 @@ def c09(tier, seed):
     from . import overlay
     if tier == 'quick':
         plan = [('UO3', 2, dict(k1_ops=overlay.HIST_OPS + overlay.OBS_OPS, k2=12)),
-                ('UOW', 2, dict(ncfg=50, k1_ops=overlay.HIST_OPS, k2=4)),
                 ('UO3', 3, dict(ncfg=40, k1_ops=overlay.HIST_OPS))]
     else:
         plan = [('UO3', 2, dict(k1_ops=overlay.HIST_OPS + overlay.OBS_OPS, k2=150, k3=40)),
                 ('UO3', 3, dict(ncfg=400, k1_ops=overlay.HIST_OPS + overlay.OBS_OPS, k2=20)),
                 ('UO4', 2, dict(ncfg=300, k1_ops=overlay.HIST_OPS, k2=20)),
-                ('UOW', 2, dict(ncfg=500, k1_ops=overlay.HIST_OPS + overlay.OBS_OPS, k2=20)),
                 ('UO3', 1, dict(k1_ops=overlay.HIST_OPS + overlay.OBS_OPS, k2=30)),
                 ('UO3', 4, dict(ncfg=150, k1_ops=overlay.HIST_OPS))]
     return run_overlay('C09', tier, seed, plan)
@@ -303,4 +309,45 @@ def c04(tier, seed):
                  'pre_existing_bytes': '0 or 2 symbolic', 'read_buffer_sizes': [1, 3]}
     ck.assumptions = HANDLE_ASSUMPTIONS
     ck.rule = 'a state = (configuration, session modes, pre-existing content); transitions = execution paths over all scripts of the bounded length'
+    return ck.finish(prog)
+
+
+@prop('C05')
+def c05(tier, seed):
+    from . import overlay
+    plan = [('UO3', 2, dict(ncfg=50 if tier == 'quick' else None, k1_ops=overlay.HIST_OPS, k2=3 if tier == 'quick' else 30)),
+            ('UOW', 2, dict(ncfg=30 if tier == 'quick' else 300, k1_ops=['remove_file', 'remove_dir_all', 'write'], k2=2 if tier == 'quick' else 10))]
+    if tier != 'quick':
+        plan.append(('UO3', 3, dict(ncfg=200, k1_ops=overlay.HIST_OPS, k2=5)))
+    return run_onestep('C05', tier, seed, ['mem', 'alt:/a'], ['mem', 'alt:/a', 'alt:/a/b', 'altalt'], onestep.PRIMS + onestep.COMPOSITES + ['exists'],
+                       perm=True, overlay_plan=plan)
+
+
+@prop('C12')
+def c12(tier, seed):
+    from . import overlay
+    plan = [('UO3', 2, dict(ncfg=50 if tier == 'quick' else None, k1_ops=overlay.HIST_OPS + overlay.OBS_OPS, k2=3 if tier == 'quick' else 30))]
+    if tier != 'quick':
+        plan.append(('UO3', 3, dict(ncfg=200, k1_ops=overlay.HIST_OPS + overlay.OBS_OPS, k2=5)))
+    return run_onestep('C12', tier, seed, ['mem', 'alt:/a'], ['mem', 'alt:/a', 'alt:/a/b', 'altalt'], ALL_OPS, overlay_plan=plan)
+
+
+@prop('C11')
+def c11(tier, seed):
+    from . import transfer
+    ck = Check('C11', tier, seed)
+    prog = load_program()
+    ck.selftest = quick_selftest(prog, seed, 12 if tier == 'quick' else 150)
+    if tier == 'quick':
+        pairs, bufs = ['same_mem', 'two_mem', 'same_alt', 'mem_to_alt', 'same_ovl'], (2,)
+    else:
+        pairs, bufs = transfer.PAIRS, (1, 2)
+    cases = transfer.transfer_cases(pairs, ['C11'], tier, seed, bufs)
+    ck.add(run_cases(prog, transfer.run_transfer_case, cases), 'copy_file/move_file/copy_dir/move_dir between instance pairs, every source tree x destination situation')
+    comp = step_cases(['mem', 'alt:/a'] if tier == 'quick' else ['mem', 'alt:/a', 'altalt'], 'U5', onestep.COMPOSITES, ['C11'], tier, seed, tag='C11')
+    ck.add(run_cases(prog, onestep.run_step_case, comp), 'create_dir_all / remove_dir_all from every well-formed tree on every path')
+    ck.bounds = {'universe': 'UT: source {a, a/b, a/b/c, f}, destination {x, x/b, x/b/c}', 'instance_pairs': pairs, 'file_bytes': '0..3 symbolic',
+                 'io_copy_model_buffer': list(bufs), 'excluded': 'destination inside the source subtree (documented non-termination), wrong-type sources (unspecified)'}
+    ck.assumptions = COMMON_ASSUMPTIONS + ['io::copy is a loop over the real reader/writer with a small model buffer (the 8 KiB constant of std is outside the claim)']
+    ck.rule = 'a state = (instance pair, source tree shape, destination situation); a transition = one transfer call path; non-trivial = source exists'
     return ck.finish(prog)
